@@ -84,6 +84,16 @@ Theorem C18_full_run_is_run : forall fixed init progs sched,
 Proof. exact full_run_is_run. Qed.
 Print Assumptions C18_full_run_is_run.
 
+(* Progress without interference: from ANY state, a thread that is scheduled
+   twice in a row completes its current call (the retry after its own failed
+   compare-and-swap works on the current vector). *)
+Theorem C18_solo_progress : forall fixed s t o rest p,
+  g_thr s !! t = Some (MkThread (o :: rest) p) ->
+  g_thr (step fixed s t) !! t = Some (MkThread rest PIdle) \/
+  g_thr (step fixed (step fixed s t) t) !! t = Some (MkThread rest PIdle).
+Proof. exact solo_progress. Qed.
+Print Assumptions C18_solo_progress.
+
 (* non-vacuity: the racing schedule on the repaired code; the hypotheses hold
    and the second remover gets None *)
 Example C18_example :
